@@ -111,6 +111,7 @@ func (g *GenOpts) analyzeSpec() (*loads.Document, *analysis.Spec, error) {
 	// spec preprocessing option
 	if g.PropertiesSpecOrder {
 		g.Spec = WithAutoXOrder(g.Spec)
+		verifYield("analyzeSpec.beforeReload")
 		specDoc, err = loads.Spec(g.Spec)
 		if err != nil {
 			return nil, nil, err
